@@ -85,6 +85,7 @@ def run_model(ctx, prep, with_spec=False):
     C.run_model("TL", prep["cases"], mout, args=args, timeout=3000)
     model = {}
     dom = {}
+    canon = set()
     with open(mout) as f:
         for line in f:
             fs = line.rstrip("\n").split("\t")
@@ -92,12 +93,15 @@ def run_model(ctx, prep, with_spec=False):
                 model[fs[0]] = (fs[1], fs[2])
             elif len(fs) == 3:
                 model[fs[0]] = fs[1]
-                dom[fs[2]] = dom.get(fs[2], 0) + 1     # wt / illtyped / c: is the value inside the typing predicate of the theorems?
+                dom[fs[2]] = dom.get(fs[2], 0) + 1     # wt-canonical / wt / illtyped / c: is the value inside the domain of the theorems?
+                if fs[2] == "wt-canonical":
+                    canon.add(fs[0])
             else:
                 model[fs[0]] = fs[1]
                 if fs[1] == "unsupported":
                     dom["unsupported"] = dom.get("unsupported", 0) + 1
     prep["domain"] = dom
+    prep["canonical_ids"] = canon
     return model
 
 
